@@ -386,7 +386,7 @@ func (x *explorer) flush() {
 const maxShrunkPerShard = 400
 
 // structureBudgetShare: see checkStructure.
-const structureBudgetShare = 1.0
+const structureBudgetShare = 0.6
 
 // runCase evaluates one plan, records it and returns the tree shape ("" when
 // the plan was not run or has no tree).
